@@ -84,6 +84,56 @@ pub struct Opened {
 	pub comp: String,
 	pub cover: BTreeMap<u8, Box4>,
 	pub looks: Vec<Look>,
+	/// bulk reads through `get_bbox_tile_stream` (oracle only; not part of the protocol answer)
+	pub streams: Vec<StreamRes>,
+}
+#[derive(Clone, Debug)]
+pub struct StreamRes {
+	pub z: u8,
+	pub bx: Box4,
+	/// Ok: the streamed (coordinate, payload) pairs in arrival order; Err: panic message
+	pub got: Result<Vec<(Coord, Vec<u8>)>, String>,
+}
+
+/// boxes to read in bulk, chosen without knowledge of the encoder's intent: per advertised level the full
+/// level box and its two diagonal quarters (when small enough for readers that stream by single lookups), a strip
+/// across the first 256-block border, a 3×3 box around up to 12 tiles that single lookups found, and — for the
+/// index-based streams of versatiles / mbtiles — the whole 256-block of up to 6 found tiles (clipped to the level box).
+pub fn stream_boxes(container: &str, cover: &BTreeMap<u8, Box4>, found: &[Coord]) -> Vec<(u8, Box4)> {
+	let indexed = container == "versatiles" || container == "mbtiles";
+	let cap: u64 = if indexed { 70_000 } else { 1_500 };
+	let area = |b: &Box4| (b.2 - b.0 + 1) as u64 * (b.3 - b.1 + 1) as u64;
+	// versatiles walks every 256-block of the box: bound the number of blocks as well
+	let blocks = |b: &Box4| ((b.2 >> 8) - (b.0 >> 8) + 1) as u64 * ((b.3 >> 8) - (b.1 >> 8) + 1) as u64;
+	let mut v: Vec<(u8, Box4)> = vec![];
+	let mut push = |z: u8, b: Box4| {
+		if b.0 <= b.2 && b.1 <= b.3 && area(&b) <= cap.max(9) && blocks(&b) <= 64 && !v.contains(&(z, b)) && v.len() < 60 {
+			v.push((z, b));
+		}
+	};
+	for (z, c) in cover {
+		push(*z, *c);
+		let (mx, my) = (c.0 + (c.2 - c.0) / 2, c.1 + (c.3 - c.1) / 2);
+		push(*z, (c.0, c.1, mx, my));
+		push(*z, (mx, my, c.2, c.3));
+		if c.0 >> 8 != c.2 >> 8 {
+			let b = ((c.0 >> 8) + 1) << 8;
+			push(*z, (b - 1, c.1, b.min(c.2), c.3.min(c.1 + 600)));
+		}
+		if c.1 >> 8 != c.3 >> 8 {
+			let b = ((c.1 >> 8) + 1) << 8;
+			push(*z, (c.0, b - 1, c.2.min(c.0 + 600), b.min(c.3)));
+		}
+	}
+	for (i, (z, x, y)) in found.iter().enumerate().take(12) {
+		if let Some(c) = cover.get(z) {
+			push(*z, (x.saturating_sub(1).max(c.0), y.saturating_sub(1).max(c.1), (x + 1).min(c.2), (y + 1).min(c.3)));
+			if indexed && i < 6 {
+				push(*z, (((x >> 8) << 8).max(c.0), ((y >> 8) << 8).max(c.1), (((x >> 8) << 8) + 255).min(c.2), (((y >> 8) << 8) + 255).min(c.3)));
+			}
+		}
+	}
+	v
 }
 #[derive(Clone, Debug)]
 pub enum OpenRes {
@@ -140,7 +190,21 @@ pub fn interrogate(rt: &Runtime, reader: &dyn TilesReaderTrait, qs: &[Coord]) ->
 			}
 		})
 		.collect();
-	Opened { fmt: fmt_name(p.tile_format), comp: comp_name(p.tile_compression), cover: cover_of(&p.bbox_pyramid), looks }
+	let looks: Vec<Look> = looks;
+	let cover = cover_of(&p.bbox_pyramid);
+	let found: Vec<Coord> = qs.iter().zip(&looks).filter(|(_, l)| matches!(l, Look::Some(_))).map(|(q, _)| *q).collect();
+	let streams = stream_boxes(reader.get_container_name(), &cover, &found)
+		.into_iter()
+		.map(|(z, b)| {
+			let got = catch(|| {
+				let bbox = TileBBox::new(z, b.0, b.1, b.2, b.3).expect("stream box inside the level");
+				rt.block_on(async { reader.get_bbox_tile_stream(bbox).await.collect().await })
+			})
+			.map(|v| v.into_iter().map(|(c, blob)| ((c.z, c.x, c.y), blob.into_vec())).collect());
+			StreamRes { z, bx: b, got }
+		})
+		.collect();
+	Opened { fmt: fmt_name(p.tile_format), comp: comp_name(p.tile_compression), cover, looks, streams }
 }
 
 fn with_reader<R: TilesReaderTrait>(rt: &Runtime, qs: &[Coord], open: impl FnOnce() -> anyhow::Result<R>) -> OpenRes {
@@ -280,6 +344,35 @@ pub fn judge(intent: &Intent, qs: &[Coord], res: &OpenRes) -> Option<(&'static s
 			b => return Some(("coverage", format!("level {z}: advertised {c:?} exceeds the encoded/declared box {b:?}"))),
 		}
 	}
+	judge_streams(&intent.tiles, &o.streams)
+}
+
+/// bulk path: every box read through get_bbox_tile_stream gives exactly the encoded tiles of the box, each once
+pub fn judge_streams(tiles: &TileMap, streams: &[StreamRes]) -> Option<(&'static str, String)> {
+	for s in streams {
+		let inside = |c: &Coord| c.0 == s.z && s.bx.0 <= c.1 && c.1 <= s.bx.2 && s.bx.1 <= c.2 && c.2 <= s.bx.3;
+		let got = match &s.got {
+			Err(p) => return Some(("stream-panic", format!("get_bbox_tile_stream(level {}, box {:?}) panicked: {}", s.z, s.bx, trunc(p, 160)))),
+			Ok(g) => g,
+		};
+		let mut seen: BTreeSet<Coord> = BTreeSet::new();
+		for (c, b) in got {
+			if !seen.insert(*c) {
+				return Some(("stream-duplicate", format!("stream of level {} box {:?} yields tile {c:?} twice", s.z, s.bx)));
+			}
+			if !inside(c) {
+				return Some(("stream-extra", format!("stream of level {} box {:?} yields tile {c:?} outside the box", s.z, s.bx)));
+			}
+			match tiles.get(c) {
+				None => return Some(("stream-extra", format!("stream of level {} box {:?} yields tile {c:?} that was not encoded", s.z, s.bx))),
+				Some(p) if p != b => return Some(("stream-wrong-payload", format!("stream of level {} box {:?}: tile {c:?} has {} bytes, encoded {} bytes", s.z, s.bx, b.len(), p.len()))),
+				_ => {}
+			}
+		}
+		if let Some((c, _)) = tiles.iter().find(|(c, p)| inside(c) && !p.is_empty() && !seen.contains(*c)) {
+			return Some(("stream-missing", format!("stream of level {} box {:?} does not yield the encoded tile {c:?}", s.z, s.bx)));
+		}
+	}
 	None
 }
 
@@ -289,6 +382,13 @@ pub fn count_looks(out: &mut Out, res: &OpenRes) {
 		OpenRes::Panic(_) => out.count("open_panic"),
 		OpenRes::Ok(o) => {
 			out.count("open_ok");
+			for st in &o.streams {
+				out.count("stream_boxes_read");
+				match &st.got {
+					Ok(g) => out.count_n("stream_tiles_received", g.len() as u64),
+					Err(_) => out.count("stream_panics"),
+				}
+			}
 			for l in &o.looks {
 				out.count(match l {
 					Look::None => "res_none",
@@ -509,7 +609,7 @@ pub fn gen_vt_choices(rng: &mut Rng) -> VtChoices {
 		empty_block: !plain && rng.chance(1, 5),
 		shuffle_blocks: !plain && rng.chance(1, 2),
 		shuffle_index: !plain && rng.chance(1, 2),
-		shuffle_blobs: !plain && rng.chance(1, 2),
+		blob_order: if plain { 0 } else { rng.below(4) as u8 },
 		share: rng.chance(1, 2),
 		max_gap: if !plain && rng.chance(1, 3) { rng.range(1, 9) as usize } else { 0 },
 		bbox: [-1800000000 + rng.below(1000) as i32, -850511287, 1800000000, 850511287 - rng.below(1000) as i32],
@@ -565,8 +665,11 @@ pub fn build_v(rt: &Runtime, tiles: &TileMap, ch: &VtChoices, seed: u64) -> Buil
 	if ch.shuffle_blocks || ch.shuffle_index {
 		fr.push("shuffled_blocks");
 	}
-	if ch.shuffle_blobs {
-		fr.push("shuffled_blobs");
+	match ch.blob_order {
+		1 => fr.push("blobs_shuffled"),
+		2 => fr.push("blobs_reverse"),
+		3 => fr.push("blobs_column_major"),
+		_ => {}
 	}
 	if ch.max_gap > 0 {
 		fr.push("gaps");
@@ -1862,7 +1965,7 @@ pub fn run(args: &Args) {
 	}
 	self_test().expect("independent Hilbert implementation self test");
 	let mut ctx = new_ctx(args, "c16-scratch");
-	ctx.out.rule = "containers built by an independent encoder from small random tile sets (1–40 tiles in clusters near 0 / the 256 grid / the level edge, zoom 0–14 and some 15–24, payload pool with duplicates and a few empty payloads) and random layout choices (versatiles: sparse/shuffled block index, padded or full ranges, empty declared block, shared offsets, gaps, metadata absent; pmtiles: run lengths, shared offsets, explicit offsets, 1–3 directory levels with fan-out 1–5, mixed root, internal compression none/gzip/brotli, unclustered data, section order; mbtiles: zoom gaps, view over map/images, extra metadata; tar: ./ prefix none/all/mixed, directory members, ustar prefix field, shuffled members, metadata name/compression, .jpeg/.PNG extensions; directory tree likewise); queries = encoded coordinates + ≤100 probes (8 neighbours, ±256, other zoom levels, random); codec streams VTH VBD VTI VBI PMH PMD PMF PMS HIL NAM with valid, mutated and boundary inputs. A container case is non-trivial when it uses at least one freedom the own writer never uses and has ≥ 2 tiles; a codec case when the real code does not answer `err`; distinct by case text".into();
+	ctx.out.rule = "every opened container is also read in bulk through get_bbox_tile_stream (full level boxes, quarters, strips across 256-block borders, 3x3 boxes and whole blocks around found tiles; multi-thread runtime, catch_unwind) and must yield exactly the encoded tiles of the box, each once; containers built by an independent encoder from small random tile sets (1–40 tiles in clusters near 0 / the 256 grid / the level edge, zoom 0–14 and some 15–24, payload pool with duplicates and a few empty payloads) and random layout choices (versatiles: sparse/shuffled block index, padded or full ranges, empty declared block, shared offsets, gaps, metadata absent; pmtiles: run lengths, shared offsets, explicit offsets, 1–3 directory levels with fan-out 1–5, mixed root, internal compression none/gzip/brotli, unclustered data, section order; mbtiles: zoom gaps, view over map/images, extra metadata; tar: ./ prefix none/all/mixed, directory members, ustar prefix field, shuffled members, metadata name/compression, .jpeg/.PNG extensions; directory tree likewise); queries = encoded coordinates + ≤100 probes (8 neighbours, ±256, other zoom levels, random); codec streams VTH VBD VTI VBI PMH PMD PMF PMS HIL NAM with valid, mutated and boundary inputs. A container case is non-trivial when it uses at least one freedom the own writer never uses and has ≥ 2 tiles; a codec case when the real code does not answer `err`; distinct by case text".into();
 	if let Some(p) = &args.replay {
 		for line in std::fs::read_to_string(p).unwrap().lines() {
 			let line = line.trim_end();
